@@ -82,6 +82,14 @@ class Gen:
         k = r.random()
         if d <= 0 or k < 0.4:
             return self.atom(names)
+        if k < 0.48:
+            # the idioms `value || fallback`, `ok && value`, if(test, a, b): every operand - also one that is only evaluated when the left operand decides
+            # nothing - sees the locals of the call it stands in
+            form = r.choice(['||', '&&', 'if', '||', '&&'])
+            decided = r.choice([num(0), sq(''), ('var', 'null'), ('var', 'false'), num(1), sq('s'), ('var', 'true')] + ([('var', r.choice(names))] if names else []))
+            if form == 'if':
+                return call('if', decided, self.atom(names), self.atom(names))
+            return ('bin', form, decided, self.atom(names) if r.random() < 0.7 else self.expr(names, d - 1))
         if k < 0.7:
             return ('bin', r.choice(['+', '+', '-', '*']), self.expr(names, d - 1), self.expr(names, d - 1))
         if k < 0.85 and self.funcs:
